@@ -39,7 +39,7 @@ def observe_suspended(w: progs.World, problems: List[str], records: List[dict], 
         return
     ctxs = fr[0].contexts
     got = [(ids.get(id(c.obj), "?" if c.obj is not None else None), c.is_async, c.is_exiting) for c in ctxs]
-    want = [(mid, type(w.mgrs[mid]).__name__ == "AMgr", ex) for mid, ex in truth]
+    want = [(mid, type(w.mgrs[mid]).__name__.endswith("AMgr"), ex) for mid, ex in truth]
     ws = [str(x.message)[:160] for x in caught if issubclass(x.category, _IW)]
     try:
         blocks = [[b.handler, b.level] for b in lowlevel.inspect_frame(w.frame).blocks]
